@@ -49,9 +49,10 @@ pub enum Code {
     UpgradeExpectPanic, // a = wvar
     DupWeakExpectPanic, // a = wvar
     PutG,           // a = src var                               (move var into empty G)
+    FillBag,        // a = var, b = k  (park self-clones in the object's own traced bag until strong count = MAX - k)
 }
 
-pub const NCODES: u8 = Code::PutG as u8 + 1;
+pub const NCODES: u8 = Code::FillBag as u8 + 1;
 
 #[derive(Clone, Copy, PartialEq, Eq, Hash, PartialOrd, Ord)]
 pub struct Op {
@@ -141,6 +142,7 @@ impl fmt::Debug for Op {
             UpgradeExpectPanic => write!(f, "UpgradeAtMax(w{a})")?,
             DupWeakExpectPanic => write!(f, "DupWeakAtMax(w{a})")?,
             PutG => write!(f, "PutG(v{a}->G)")?,
+            FillBag => write!(f, "FillBag(v{a},MAX-{b})")?,
         }
         if self.fault != NO_FAULT {
             write!(f, "[panic@cp{}]", self.fault)?;
